@@ -38,8 +38,8 @@ RESUME_EXCEPTIONS = {
 }
 
 
-def check_resume(ck, prog):
-    ck.rule("C06-RESUME", "locals defined in the resumable region, possibly current at a "
+def check_resume(ck, prog, RULE="C06-RESUME", only_files=None, floor=None):
+    ck.rule(RULE, "locals defined in the resumable region, possibly current at a "
             "return and live at a resume label, must have a restore/save pair with coder state")
     cg = common.callgraph(prog)
     fns = {f.key: f for f in common.code_slot_functions(prog, cg)}
@@ -49,6 +49,8 @@ def check_resume(ck, prog):
     pw = resume.ParamWrites(prog)
     n = 0
     for f in sorted(fns.values(), key=lambda f: (f.file, f.line)):
+        if only_files is not None and f.file.rsplit("/", 1)[-1] not in only_files:
+            continue
         R = resume.Resume(prog, f, pw)
         if not R.find_switch():
             continue
@@ -57,26 +59,26 @@ def check_resume(ck, prog):
         ck.saw_function(f)
         nontrivial = [(nm, c) for nm, c in r["classes"].items()
                       if c in ("persisted", "VIOLATION", "returned-value")]
-        ck.ob("C06-RESUME", f.name + ":machine", True, common.where(f, r["switch_line"]),
+        ck.ob(RULE, f.name + ":machine", True, common.where(f, r["switch_line"]),
               "switch(%s), %d resume labels, %d locals classified" % (
                   r["state"], r["n_labels"], len(r["classes"])))
         viol = {v["pv"]: v for v in r["violations"]}
         for nm, c in nontrivial:
             base = nm.split(".")[0]
             if c != "VIOLATION":
-                ck.ob("C06-RESUME", "%s:%s" % (f.name, nm), True, common.where(f),
+                ck.ob(RULE, "%s:%s" % (f.name, nm), True, common.where(f),
                       "local %s: %s" % (nm, c))
                 continue
             v = viol[nm]
             exc = RESUME_EXCEPTIONS.get((f.name, base))
             if exc:
                 ok, why = _check_exception(prog, f, R, r, nm, exc)
-                ck.ob("C06-RESUME", "%s:%s" % (f.name, nm), ok,
+                ck.ob(RULE, "%s:%s" % (f.name, nm), ok,
                       common.where(f, v["def_line"]),
                       "local %s: exception '%s' (%s): %s" % (nm, exc[0], exc[1], why),
                       key="RESUME:%s:%s" % (f.name, nm))
                 continue
-            ck.ob("C06-RESUME", "%s:%s" % (f.name, nm), False,
+            ck.ob(RULE, "%s:%s" % (f.name, nm), False,
                   common.where(f, v["def_line"]),
                   "local '%s' is assigned inside the resumable region (line %d), is live at "
                   "resume label(s) %s, and is not saved to coder state before return: after a "
@@ -86,7 +88,7 @@ def check_resume(ck, prog):
                       (" from " + ", ".join(v["restore"])) if v["restore"] else ""),
                   key="RESUME:%s:%s" % (f.name, nm),
                   detail=v)
-    ck.floor("C06-RESUME", RESUME_FLOOR)
+    ck.floor(RULE, RESUME_FLOOR if floor is None else floor)
 
 
 def _check_exception(prog, f, R, r, nm, exc):
